@@ -18,6 +18,7 @@ from agilerl.modules.resnet import EvolvableResNet
 from agilerl.modules.simba import EvolvableSimBa
 from agilerl.networks.actors import DeterministicActor, StochasticActor
 from agilerl.networks.q_networks import ContinuousQNetwork, QNetwork, RainbowQNetwork
+from agilerl.networks.custom_modules import DuelingDistributionalMLP
 from agilerl.networks.value_networks import ValueNetwork
 from agilerl.wrappers.make_evolvable import MakeEvolvable
 
@@ -126,6 +127,12 @@ BLOCKS.update({
     "det_noclip": (lambda: DeterministicActor(VEC, spaces.Box(-2, 3, (2,)), encoder_config=dict(ENC_MLP), head_config=dict(HEAD, output_activation="Tanh"), clip_actions=False, **LAT), lambda: _x((3,))),
     "rainbow_std": (lambda: RainbowQNetwork(VEC, spaces.Discrete(2), support=torch.linspace(-1, 1, 3), num_atoms=3, noise_std=0.2,
                                             encoder_config=dict(ENC_MLP), head_config=dict(HEAD), **LAT), lambda: _x((3,))),
+    "rainbow_gelu": (lambda: RainbowQNetwork(VEC, spaces.Discrete(2), support=torch.linspace(-1, 1, 3), num_atoms=3,
+                                             encoder_config=dict(ENC_MLP, activation="GELU", new_gelu=True),
+                                             head_config=dict(HEAD, activation="GELU", new_gelu=True), **LAT), lambda: _x((3,))),
+    "dueling": (lambda: DuelingDistributionalMLP(3, 2, [4], num_atoms=3, support=torch.linspace(-1, 1, 3), activation="GELU", new_gelu=True, **MLPB), lambda: _x((3,))),
+    "dueling_plain": (lambda: DuelingDistributionalMLP(3, 3, [4, 3], num_atoms=3, support=torch.linspace(0, 2, 3), layer_norm=False, noisy=False,
+                                                       output_vanish=False, init_layers=True, activation="Tanh", **MLPB), lambda: _x((3,))),
     "q_custom_enc": (lambda: QNetwork(VEC, spaces.Discrete(2), encoder_cls=EvolvableMLP, encoder_config=dict(num_inputs=3, num_outputs=4, hidden_size=[4], **MLPB),
                                       head_config=dict(HEAD), **LAT), lambda: _x((3,))),
     "value_resnet_alias": (lambda: ValueNetwork(spaces.Box(0, 1, (2, 6, 6)), encoder_cls="ResNet",
